@@ -27,7 +27,8 @@ def FLOORS(tier):
     f = {"ground-state-rows-decoded": 1500 if q else 50000, "is_solution_valid-checks": 8000 if q else 3 * 10 ** 5,
          "solve_bruteforce-calls": 250 if q else 8000, "solve_bruteforce-all_solutions-calls": 60 if q else 2500, "SetCover:log_trick=True": 10, "SetCover:log_trick=False": 10,
          "JobSequencing:log_trick=True": 10, "JobSequencing:log_trick=False": 10, "weights:default": 100,
-         "weights:just-above-threshold": 100, "spin-input-decoded": 300}
+         "weights:just-above-threshold": 100, "spin-input-decoded": 300,
+         "VertexCover:duplicate-orientation-or-self-loop": 6}
     for c in CLASSES:
         f["class:" + c] = 30 if q else 1000
     return f
@@ -174,6 +175,14 @@ def do_VertexCover(ctx, rng, w, bad, call):
     edges = {(verts[i], verts[j]) for i in range(N) for j in range(i + 1, N) if rng.random() < 0.5}
     if not edges:
         return
+    if rng.random() < 0.25:
+        # the same undirected edge listed in both orientations, and/or a self loop (its vertex must be in every cover)
+        for (u, v) in rng.sample(sorted(edges, key=repr), rng.randint(1, min(2, len(edges)))):
+            edges.add((v, u))
+        if rng.random() < 0.4:
+            u = rng.choice(verts)
+            edges.add((u, u))
+        ctx.cat("VertexCover:duplicate-orientation-or-self-loop")
     w.update(edges=edges)
     p = call("init", L.problems.VertexCover, set(edges))
     n = p.num_binary_variables
